@@ -8,6 +8,7 @@ import (
 	"go/token"
 	"go/types"
 	"sort"
+	"strings"
 
 	"golang.org/x/tools/go/ssa"
 )
@@ -129,6 +130,7 @@ func c12Origins(c *Ctx) {
 	rows[5].enforced, rows[5].where = argOrigin(pre, nsm, 5)
 	// connection ID limit: the constant compared with len(queue) in connIDManager.Add
 	rows[6].enforced, rows[6].where = "?", c.P.Pos(cidAdd.Pos())
+	var cidLimitField *types.Var
 	queue := c.fld("", "connIDManager", "queue")
 	eachInstr(cidAdd, func(i ssa.Instruction) {
 		bo, ok := i.(*ssa.BinOp)
@@ -137,8 +139,40 @@ func c12Origins(c *Ctx) {
 		}
 		if LenOf(Load(queue))(bo.X) {
 			rows[6].enforced, rows[6].where = c.origin(bo.Y, 0), c.P.InstrPos(i)
+			// the limit may be read through an accessor returning the stored (advertised) limit or the default constant
+			if cl, ok := stripConv(bo.Y).(*ssa.Call); ok {
+				if sc := cl.Call.StaticCallee(); sc != nil && sc.Blocks != nil {
+					var konst string
+					eachInstr(sc, func(x ssa.Instruction) {
+						r, ok := x.(*ssa.Return)
+						if !ok {
+							return
+						}
+						v := stripConv(retResults(r)[0])
+						if o := c.origin(v, 0); strings.HasPrefix(o, "const ") {
+							konst = o
+						} else if f, _ := loadedField(v); f != nil {
+							cidLimitField = f
+						}
+					})
+					if konst != "" {
+						rows[6].enforced = konst
+					}
+				}
+			}
 		}
 	})
+	// where the stored limit comes from: the hook's parameter
+	hookStoresLimit := false
+	hookFn := c.fn("", "connIDManager", "SetConnectionIDLimit")
+	if cidLimitField != nil {
+		for _, in := range findInstrs(hookFn, StoresTo(cidLimitField)) {
+			if _, isP := stripConv(in.(*ssa.Store).Val).(*ssa.Parameter); isP {
+				hookStoresLimit = true
+			}
+		}
+	}
+	hookObj := c.obj("", "connIDManager", "SetConnectionIDLimit")
 	rows[7].enforced, rows[7].where = argOrigin(pre, nfp, 0)
 	// idle timeout: the store `c.idleTimeout = c.config.MaxIdleTimeout`
 	idle := c.fld("", "Conn", "idleTimeout")
@@ -228,6 +262,20 @@ func c12Origins(c *Ctx) {
 					}
 				}
 				want := r.enforced
+				if fname == "ActiveConnectionIDLimit" && hookStoresLimit {
+					// the constructor hands the advertised limit to the manager, which enforces the stored value
+					tpLimit := c.fld("internal/wire", "TransportParameters", "ActiveConnectionIDLimit")
+					eachInstr(fn, func(x ssa.Instruction) {
+						ci, ok := x.(ssa.CallInstruction)
+						if !ok || calleeObj(ci.Common()) != hookObj {
+							return
+						}
+						args := ci.Common().Args
+						if len(args) == 2 && Load(tpLimit)(args[1]) && dominatedByBlock(x.Block(), al.Block()) && fromSpec {
+							want = adv
+						}
+					})
+				}
 				ok2 := adv == want
 				if fname == "ActiveConnectionIDLimit" && adv == "const "+maxActive.(*types.Const).Val().ExactString() && want == adv {
 					ok2 = true
